@@ -142,9 +142,35 @@ def check_C02(tier, seed):
 
 
 def replay(pid, path):
+    """Print a recorded violation and, when it carries an input text, run that input again through the CURRENT
+    implementation (events over two back-ends, document loader) and the extracted model, so that the reader sees what
+    the code does with it now.  Exit 1 while the implementation still ends abnormally on it or disagrees with the model
+    (event kinds / verdict / error position), 0 otherwise (property-specific oracles are re-applied by the check itself)."""
     d = json.load(open(path if os.path.isabs(path) else os.path.join(core.VERIF, path)))
     print(json.dumps(d, indent=1)[:4000])
-    return 0
+    case = d.get("case") if isinstance(d.get("case"), dict) else None
+    cps = case.get("codepoints") if case else None
+    if not isinstance(cps, str) or not all(t.isdigit() for t in cps.split()):
+        return 0
+    try:
+        ok1, _ = core.build_harness()
+        ok2, _ = core.build_model("")
+    except Exception:
+        ok1 = ok2 = False
+    if not (ok1 and ok2):
+        print("replay: harness or model does not build; nothing re-run")
+        return 1
+    outs = {"events/str": run_hx(["events", "str"], [cps])[0], "events/iter": run_hx(["events", "iter"], [cps])[0],
+            "load/yaml": run_hx(["load", "yaml", "eager"], [cps])[0], "model/str": run_mx(["events", "str"], [cps])[0]}
+    for k, v in outs.items():
+        print("replay %-12s %s" % (k, v[-600:]))
+    bad = any(x in v for v in list(outs.values())[:3] for x in ("PANIC", "CRASH", "TIMEOUT", "SPIN"))
+    me, mf = split_line(outs["model/str"])
+    ie, if_ = split_line(outs["events/str"])
+    differs = proj_kinds(outs["model/str"]) != proj_kinds(outs["events/str"]) or fin_pos(mf) != fin_pos(if_) \
+        or outs["events/str"].rsplit("|", 1)[0] != outs["events/iter"].rsplit("|", 1)[0]
+    print("replay verdict: %s" % ("still failing" if bad or differs else "implementation ends normally and agrees with the model on this input"))
+    return 1 if bad or differs else 0
 
 
 # ------------------------------------------------------------------------------------------------
